@@ -43,4 +43,21 @@ def codeZeroFix : Bool :=
   Gen.recoverMaskZeroBecomesNoStrict && Gen.recoverMasksStrictReader && Gen.getStrictZeroMeansDefault &&
     Gen.dupOptionsZeroMeansDefault && Gen.noStrictIsComplementOfAll
 
+/-! ## the strictness of a compaction's input iterators (`opt.GetStrict(o, ro, …)`, `compaction.newIterator`) -/
+
+/-- `ReadOptions.GetStrict(flag)` for a non-nil `ReadOptions` -/
+def roGetStrict (ro flag : Nat) : Bool := ro &&& flag != 0
+
+/-- `opt.GetStrict(o, ro, flag)` -/
+def getStrictRO (o ro flag : Nat) : Bool :=
+  if roGetStrict ro Gen.optStrictOverride then roGetStrict ro flag else (getStrict o flag || roGetStrict ro flag)
+
+/-- the `ReadOptions.Strict` `compaction.newIterator` builds: `StrictOverride`, plus `extra` when the session's options
+have `StrictCompaction` (the code: `extra = StrictReader`) -/
+def compactionRO (extra o : Nat) : Nat :=
+  if getStrict o Gen.optStrictCompaction then Gen.optStrictOverride ||| extra else Gen.optStrictOverride
+
+/-- the code as it is (regenerated facts) -/
+def codeCompactionIterShape : Bool := Gen.compactionIterStrictShape && Gen.getStrictWithReadOptionsShape && Gen.getStrictZeroMeansDefault
+
 end GoLevel.Strict
